@@ -82,6 +82,25 @@ def packet_execute(case, stats):
     eq((bytes(p2.ciphertext), bytes(p2.signature)), (want_ct, R.sign(want_ct, hk)), "encrypt:positional_keys", "encrypt_packet(plain, *BeaconKeys)")
     eq(bytes(lib(c2.decrypt_packet, pkt, *keys, what="decrypt_packet(pkt, *keys)")), plain + b"A" * npad, "decrypt:positional_keys", f"decrypt_packet(pkt, *BeaconKeys) with iv {iv!r}")
     eq(bytes(lib(c2.decrypt_packet, pkt, **keys._asdict(), what="decrypt_packet(pkt, **keys)")), plain + b"A" * npad, "decrypt:keyword_keys", "decrypt_packet(pkt, **BeaconKeys._asdict())")
+    # session keys made by the two constructors that derive them (from the 16 random bytes / from a metadata packet) carry
+    # the configured IV as well, given positionally or by name, and packets under them are CBC under that IV
+    import hashlib
+
+    from dissect.cobaltstrike.c_c2 import BeaconMetadata
+
+    d = hashlib.sha256(aes).digest()
+    md = BeaconMetadata(magic=0xBEEF, size=51, aes_rand=aes, info=b"")
+    made = [
+        ("from_aes_rand", (lambda: c2.BeaconKeys.from_aes_rand(aes, **kw)) if len(plain) % 2 else (lambda: c2.BeaconKeys.from_aes_rand(aes, *([iv] if kw else [])))),
+        ("from_beacon_metadata", (lambda: c2.BeaconKeys.from_beacon_metadata(md, **kw)) if len(plain) % 2 else (lambda: c2.BeaconKeys.from_beacon_metadata(md, *([iv] if kw else [])))),
+    ]
+    for name, mk in made:
+        dk = lib(mk, what=f"BeaconKeys.{name}()")
+        eq(tuple(bytes(k) for k in dk), (d[:16], d[16:], iv), "keys:derived_fields", f"BeaconKeys.{name}(..., iv={'default' if not kw else iv!r})")
+        p3 = lib(c2.encrypt_packet, plain, **dk._asdict(), what=f"encrypt_packet(plain, **{name} keys)")
+        want3 = R.cbc_encrypt(R.pad_a(plain), d[:16], iv)
+        eq(bytes(p3.ciphertext), want3, "encrypt:derived_keys", f"ciphertext under BeaconKeys.{name}(..., iv) for a {len(plain)}-byte plaintext")
+        eq(bytes(lib(c2.decrypt_packet, p3, **dk._asdict(), what=f"decrypt_packet(pkt, **{name} keys)")), plain + b"A" * npad, "decrypt:derived_keys", f"decrypt under BeaconKeys.{name}(..., iv)")
 
     # ---- fault enumeration
     ct, sig = bytes(pkt.ciphertext), bytes(pkt.signature)
